@@ -34,7 +34,7 @@ const fbVal = 55
 
 // trial is one execution through a Timeout. The oracle is true whichever of timer and function wins.
 type trial struct {
-	Placement string  `json:"placement"` // alone retry(timeout) timeout(retry) fallback(timeout) timeout(fallback) timeout(hedge) timeout(bulkhead) timeout(limiter)
+	Placement string  `json:"placement"` // alone retry(timeout) timeout(retry) fallback(timeout) timeout(fallback) timeout(hedge) timeout(bulkhead) timeout(limiter) hedge(timeout) bulkhead(timeout)
 	LimitUs   int     `json:"limit_us"`
 	DurKind   string  `json:"dur_kind"` // zero half band double block
 	Factor    float64 `json:"factor"`   // band: duration = factor * limit
@@ -122,6 +122,7 @@ func runTrial(tr trial) (violation string, out outcome) {
 	// per-attempt results as the enclosing retry policy saw them (retry(timeout) only)
 	var attemptErrs []error
 	var attemptErrAt []time.Time
+	var lateStart time.Time // hedge(timeout) / bulkhead(timeout): an instant known to precede the start of the last Timeout
 	var policies []failsafe.Policy[int]
 	var bh bulkhead.Bulkhead[int]
 	switch tr.Placement {
@@ -164,6 +165,28 @@ func runTrial(tr trial) (violation string, out outcome) {
 			rl.TryAcquirePermit() // the next permit is an hour away: the execution waits until the timeout cancels it
 		}
 		policies = []failsafe.Policy[int]{to, rl}
+	case "hedge(timeout)":
+		// the hedge outside: each attempt gets its own Timeout application, so the limit applies afresh to the hedge, which
+		// starts later than the execution. No result is accepted before both attempts have timed out.
+		hp := hedgepolicy.BuilderWithDelay[int](limit / 3).WithMaxHedges(1).CancelOnResult(-12345).OnHedge(func(failsafe.ExecutionEvent[int]) {
+			mu.Lock()
+			lateStart = time.Now() // the hedge's Timeout is applied after this listener returned
+			mu.Unlock()
+		}).Build()
+		policies = []failsafe.Policy[int]{hp, to}
+	case "bulkhead(timeout)":
+		// the bulkhead outside, its only permit held by the harness for a while: the time spent waiting for the permit is
+		// not the Timeout's
+		bh = bulkhead.Builder[int](1).WithMaxWaitTime(time.Hour).Build()
+		bh.TryAcquirePermit()
+		policies = []failsafe.Policy[int]{bh, to}
+		go func() {
+			time.Sleep(limit / 3)
+			mu.Lock()
+			lateStart = time.Now() // the permit is given back after this instant: the Timeout starts later still
+			mu.Unlock()
+			bh.ReleasePermit()
+		}()
 	default:
 		return "unknown placement " + tr.Placement, out
 	}
@@ -189,8 +212,41 @@ func runTrial(tr trial) (violation string, out outcome) {
 		return fmt.Sprintf("the call had not returned 35s after a time limit of %v: cancellation did not reach what the Timeout encloses", limit), out
 	}
 	elapsed := time.Since(t0)
-	if bh != nil && tr.Waiting {
+	tReturn := time.Now()
+	if bh != nil && tr.Waiting && tr.Placement == "timeout(bulkhead)" {
 		bh.ReleasePermit()
+	}
+	if tr.Placement == "hedge(timeout)" || tr.Placement == "bulkhead(timeout)" {
+		// the function blocks until cancelled, so everything ends in ErrExceeded; the (last) Timeout was applied after
+		// lateStart, so ErrExceeded cannot be returned before lateStart + limit
+		out.Racing = true
+		if !errors.Is(err, timeout.ErrExceeded) {
+			return fmt.Sprintf("%s with a function that only returns on cancellation returned (%d,%v)", tr.Placement, v, err), out
+		}
+		mu.Lock()
+		ls := lateStart
+		out.Attempts = invocations
+		mu.Unlock()
+		if ls.IsZero() {
+			return tr.Placement + ": the late start (hedge / permit hand-over) never happened", out
+		}
+		if d := tReturn.Sub(ls); d < limit {
+			return fmt.Sprintf("%s: ErrExceeded was returned %v after the late attempt's Timeout could have started, before the limit %v (the limit must apply afresh)", tr.Placement, d, limit), out
+		}
+		want := int32(1)
+		if tr.Placement == "hedge(timeout)" {
+			want = 2
+		}
+		deadline := time.Now().Add(30 * time.Second)
+		for listener.Load() < want && time.Now().Before(deadline) {
+			time.Sleep(100 * time.Microsecond)
+		}
+		time.Sleep(2*limit + 30*time.Millisecond)
+		if got := listener.Load(); got != want {
+			return fmt.Sprintf("%s: OnTimeoutExceeded called %d times, expected %d", tr.Placement, got, want), out
+		}
+		out.Arm, out.TimeoutArms = "timeout", int(want)
+		return "", out
 	}
 	mu.Lock()
 	out.Attempts = invocations
@@ -358,7 +414,7 @@ func runTrial(tr trial) (violation string, out outcome) {
 
 func genTrial(t *rapid.T) trial {
 	tr := trial{
-		Placement: rapid.SampledFrom([]string{"alone", "alone", "retry(timeout)", "timeout(retry)", "fallback(timeout)", "timeout(fallback)", "timeout(hedge)", "timeout(bulkhead)", "timeout(limiter)"}).Draw(t, "placement"),
+		Placement: rapid.SampledFrom([]string{"alone", "alone", "retry(timeout)", "timeout(retry)", "fallback(timeout)", "timeout(fallback)", "timeout(hedge)", "timeout(bulkhead)", "timeout(limiter)", "hedge(timeout)", "bulkhead(timeout)"}).Draw(t, "placement"),
 		LimitUs:   rapid.IntRange(1000, 20000).Draw(t, "limitUs"),
 		DurKind:   rapid.SampledFrom([]string{"zero", "half", "band", "band", "band", "double", "block"}).Draw(t, "durKind"),
 		Spin:      rapid.IntRange(0, 3).Draw(t, "spin") == 0,
@@ -382,6 +438,8 @@ func genTrial(t *rapid.T) trial {
 		}
 	case "timeout(bulkhead)", "timeout(limiter)":
 		tr.Waiting = rapid.Bool().Draw(t, "waiting")
+	case "hedge(timeout)", "bulkhead(timeout)":
+		tr.DurKind = "block"
 	}
 	return tr
 }
